@@ -65,6 +65,7 @@ fn streams() -> Vec<(&'static str, GenFn, EvalFn)> {
         ("total", s_total::gen, s_total::eval),
         ("arith", s_arith::gen, s_arith::eval),
         ("split", s_split::gen, s_split::eval),
+        ("splitlist", s_split::gen_list, s_split::eval_list),
         ("c09", s_exec::gen_c09, s_exec::eval_c09),
         ("c01", s_exec::gen_c01, s_exec::eval_c01),
         ("clip", s_exec::gen_clip, s_exec::eval_clip),
